@@ -74,6 +74,9 @@ def bits(x):
 
 
 def run_slices(ctx):
+    import skeleton
+    skeleton.check_names(ctx, "geo_forward", CONFIG(), ["latlon_to_xy"], skeleton.slice_names(SLICES_FWD))
+    skeleton.check_names(ctx, "geo_inverse", GEO(), ["xy_to_latlon"], skeleton.slice_names(SLICES_INV))
     try:
         text = py2coq.translate(CONFIG(), SLICES_FWD, "R") + py2coq.translate(GEO(), SLICES_INV, "R")
     except py2coq.TranslateError as e:
